@@ -25,7 +25,9 @@ _SEED = 0
 _TIER = 'quick'
 _TMP = None
 
-REC_SIZES = [3, 1008, 1012, 2000]
+REC_SIZES = [3, 1008, 1012, 2000, 12, 1012]
+# the last two records END IN FOUR NUL BYTES (content that looks like the zero-length terminator)
+NUL_TAIL = {4, 5}
 FINALS = ['close', 'exit', 'exit_exc']
 WRITERS = ['VbsWriter', 'IpmWriter']
 FILEKINDS = ['bytesio', 'file_w+b', 'file_wb']
@@ -35,7 +37,7 @@ MAX_FINALS = 3
 
 def set_tier(tier):
     global MAX_WRITES, MAX_FINALS
-    MAX_WRITES, MAX_FINALS = (3, 3) if tier == 'quick' else (4, 4)
+    MAX_WRITES, MAX_FINALS = (2, 3) if tier == 'quick' else (3, 4)
 
 
 def tmpdir():
@@ -48,8 +50,11 @@ def tmpdir():
 def record_for(writer, size_idx, pos):
     """the object handed to write() and the raw record bytes it must produce"""
     size = REC_SIZES[size_idx]
+    nul = size_idx in NUL_TAIL
     if writer == 'VbsWriter':
         data = blk_ref.position_code(size + pos * 13, _SEED)[pos * 13:]
+        if nul:
+            data = data[:-4] + b'\x00\x00\x00\x00'
         return data, data
     # IpmWriter: MTI + bitmap (20) + DE72 LLLVAR (+ DE54 LLLVAR)
     mti = '1%03d' % (240 + pos)
@@ -59,6 +64,8 @@ def record_for(writer, size_idx, pos):
     msg = {'MTI': mti}
     if body <= 999:
         msg['DE72'] = ('R%d-' % pos + 'x' * 999)[:body]
+        if nul:
+            msg['DE72'] = msg['DE72'][:-4] + '\x00\x00\x00\x00'
     else:
         msg['DE72'] = ('R%d-' % pos + 'x' * 999)[:999]
         msg['DE54'] = ('S%d-' % pos + 'y' * 999)[:body - 999 - 3]
@@ -302,7 +309,7 @@ def run(tier, seed):
             shutil.rmtree(_TMP, ignore_errors=True)
     caps = [acc.counters['bfs_cap_hit']] if 'bfs_cap_hit' in acc.counters else []
     desc = {
-        'rule': 'BFS over histories write^m (m<=%d, record sizes %s incl. prefix+record = 1012 and > 1 block) followed '
+        'rule': 'BFS over histories write^m (m<=%d, record sizes %s incl. prefix+record = 1012 and > 1 block; the last two end in four NUL bytes) followed '
                 'by up to %d finalisations from {close(), __exit__(None), __exit__(exception)}, with __enter__() allowed '
                 'twice anywhere (a with statement enters before it exits; a writer may be used in a second with '
                 'block) and, between two finalisations, 300 other unrelated writers created and finalised in the same '
